@@ -8,6 +8,7 @@ extern "C" {
 #define SCH_MAXPTS 96
 #define SCH_INV 1
 #define SCH_LOCK 2
+#define SCH_ALLOC 3
 void sch_reset(int nthreads, const int* prefix, int prefix_len);
 void sch_thread_begin(int tid);
 void sch_op_begin(int opidx, int first);
@@ -25,6 +26,8 @@ int  sch_inv(int tid, int op);
 int  sch_ret(int tid, int op);
 int  sch_lockpts(int tid, int op);
 int  sch_tid(void);
+void sch_alloc_points(int on);
+void sch_alloc_point(void);
 #ifdef __cplusplus
 }
 #endif
